@@ -357,4 +357,169 @@ theorem Helper.useIndex_ll {h : Helper} {vac : List Nat} {i : Nat} (wf : h.WF)
   rw [List.erase_eq_eraseIdx_of_idxOf (ll.nodup.idxOf_getElem p hp)]
   exact Helper.useIndex_ll_idx wf ll hp
 
+/-! ### 3. `closeLoop` -/
+
+theorem Helper.closeLoop_ll {fuel endIdx : Nat} {h : Helper} {vac : List Nat} (wf : h.WF)
+    (ll : h.LL vac) (hf : (vac.filter (fun j => decide (j < endIdx))).length < fuel) :
+    ∃ h', h.closeLoop fuel endIdx = .ok h' ∧
+      h'.LL (vac.filter (fun j => decide (endIdx ≤ j))) := by
+  induction fuel generalizing h vac with
+  | zero => omega
+  | succ fuel ih =>
+    unfold Helper.closeLoop
+    cases vac with
+    | nil =>
+      have hh : h.head = none := ll.head
+      rw [hh]
+      exact ⟨h, rfl, ll⟩
+    | cons x rest =>
+      have hh : h.head = some x := ll.head
+      rw [hh]
+      simp only
+      by_cases hx : endIdx ≤ x
+      · rw [if_pos hx]
+        refine ⟨h, rfl, ?_⟩
+        have : (x :: rest).filter (fun j => decide (endIdx ≤ j)) = x :: rest := by
+          rw [List.filter_eq_self]
+          intro a ha
+          have := ll.sorted
+          rw [List.pairwise_cons] at this
+          rcases List.mem_cons.1 ha with rfl | ha
+          · simpa using hx
+          · have := this.1 a ha
+            simp only [decide_eq_true_eq]; omega
+        rw [this]; exact ll
+      · rw [if_neg hx]
+        obtain ⟨h1, e1, ll1⟩ := Helper.useIndex_ll_idx wf ll (p := 0) (by simp)
+        simp only [List.getElem_cons_zero, List.eraseIdx_cons_zero] at e1 ll1
+        rw [e1]
+        simp only
+        have wf1 := (Helper.useIndex_ok wf e1).2.2.2.2.2.2.2.2
+        have hlt : decide (x < endIdx) = true := by simp only [decide_eq_true_eq]; omega
+        have hf' : (rest.filter (fun j => decide (j < endIdx))).length < fuel := by
+          simp only [List.filter_cons, hlt, if_true, List.length_cons] at hf; omega
+        obtain ⟨h', e', ll'⟩ := ih wf1 ll1 hf'
+        refine ⟨h', e', ?_⟩
+        have : (x :: rest).filter (fun j => decide (endIdx ≤ j)) =
+            rest.filter (fun j => decide (endIdx ≤ j)) := by
+          simp only [List.filter_cons, decide_eq_true_eq, hx, if_false]
+        rw [this]
+        exact ll'
+
+/-! ### 4. `pushBlock` -/
+
+theorem Helper.closedOf_ll {h : Helper} {vac : List Nat} (wf : h.WF) (ll : h.LL vac) :
+    ∃ h1, h.closedOf = .ok h1 ∧
+      h1.LL (vac.filter (fun j => decide ((h.numBlocks + 1 - h.nfb) * h.blockLen ≤ j))) := by
+  unfold Helper.closedOf Helper.droppedBlock
+  split
+  · rename_i cb hcb
+    split at hcb
+    · rename_i hfull
+      simp only [Option.some.injEq] at hcb
+      subst hcb
+      have hnfb : h.nfb ≤ h.numBlocks := by
+        rw [wf.cap_eq, Helper.numElements, Nat.mul_comm h.numBlocks] at hfull
+        exact Nat.le_of_mul_le_mul_left hfull wf.blockLen_pos
+      have e1 : h.numBlocks + 1 - h.nfb = h.activeStart + 1 := by
+        unfold Helper.activeStart; omega
+      rw [e1]
+      apply Helper.closeLoop_ll wf ll
+      have hs : (vac.filter (fun j => decide (j < (h.activeStart + 1) * h.blockLen))).Pairwise
+          (· < ·) := ll.sorted.filter _
+      have := sorted_length_le (lo := h.activeStart * h.blockLen)
+        (hi := (h.activeStart + 1) * h.blockLen) hs (by
+          intro x hx
+          rw [List.mem_filter] at hx
+          exact ⟨(ll.active hx.1).1, by simpa using hx.2⟩)
+      rw [Nat.add_mul, Nat.one_mul] at this
+      omega
+    · cases hcb
+  · rename_i hcb
+    split at hcb
+    · cases hcb
+    · rename_i hnf
+      refine ⟨h, rfl, ?_⟩
+      have hlt : h.numBlocks < h.nfb := by
+        rw [wf.cap_eq, Helper.numElements, Nat.mul_comm h.numBlocks] at hnf
+        apply Classical.byContradiction
+        intro hge
+        exact hnf (Nat.mul_le_mul_left _ (by omega))
+      have e0 : h.numBlocks + 1 - h.nfb = 0 := by omega
+      rw [e0, Nat.zero_mul]
+      have : vac.filter (fun j => decide (0 ≤ j)) = vac := by
+        rw [List.filter_eq_self]; intro a _; simp
+      rw [this]; exact ll
+
+theorem Helper.resetLoop_succ {n idx : Nat} {h : Helper}
+    (ha : ∀ m, idx ≤ m → m < idx + n → h.Active m) : ∃ h', Helper.resetLoop n idx h = .ok h' := by
+  induction n generalizing idx h with
+  | zero => exact ⟨h, rfl⟩
+  | succ n ih =>
+    unfold Helper.resetLoop
+    rw [Helper.off_active (ha idx (Nat.le_refl _) (by omega))]
+    simp only
+    apply ih
+    intro m lo hi
+    exact ha m (by omega) (by omega)
+
+theorem Helper.resetLoop_links {n idx : Nat} {h h' : Helper} (wf : h.WF)
+    (e : Helper.resetLoop n idx h = .ok h') :
+    (∀ k, (∀ m, idx ≤ m → m < idx + n → m % h.cap ≠ k % h.cap) →
+      h'.nextOf k = h.nextOf k ∧ h'.prevOf k = h.prevOf k) ∧
+    (∀ m, idx ≤ m → m < idx + n →
+      h'.nextOf m = m + 1 ∧ h'.prevOf m = if m = 0 then u32Max else m - 1) ∧
+    h'.head = h.head := by
+  induction n generalizing idx h with
+  | zero =>
+    unfold Helper.resetLoop at e
+    simp only [Except.ok.injEq] at e; subst e
+    exact ⟨fun _ _ => ⟨rfl, rfl⟩, fun m a b => by omega, rfl⟩
+  | succ n ih =>
+    have hact := (Helper.resetLoop_ok_gen wf e).1
+    unfold Helper.resetLoop at e
+    rw [Helper.off_active (hact idx (Nat.le_refl _) (by omega))] at e
+    simp only at e
+    have hltN : idx % h.cap < h.next.size := h.mod_cap_lt wf idx
+    have hltP : idx % h.cap < h.prev.size := by
+      rw [wf.size_prev, ← wf.cap_eq]; exact h.mod_cap_lt wf idx
+    generalize hh1 : ({ h with
+        next := h.next.setIfInBounds (idx % h.cap) (idx + 1),
+        prev := h.prev.setIfInBounds (idx % h.cap) (if idx = 0 then u32Max else idx - 1),
+        usedBase := h.usedBase.setIfInBounds (idx % h.cap) false,
+        usedIndex := h.usedIndex.setIfInBounds (idx % h.cap) false } : Helper) = h1 at e
+    have ecap : h1.cap = h.cap := by subst hh1; simp [Helper.cap]
+    have ehd : h1.head = h.head := by subst hh1; rfl
+    have wf1 : h1.WF := by
+      subst hh1
+      exact ⟨wf.blockLen_pos, wf.nfb_pos, by simp [wf.size_next], by simp [wf.size_prev],
+        by simp [wf.size_usedBase], by simp [wf.size_usedIndex]⟩
+    have hN : ∀ k, h1.nextOf k = if idx % h.cap = k % h.cap then idx + 1 else h.nextOf k := by
+      intro k
+      unfold Helper.nextOf; rw [ecap]; subst hh1
+      exact getD_set_ite _ _ _ _ _ hltN
+    have hP : ∀ k, h1.prevOf k = if idx % h.cap = k % h.cap then
+        (if idx = 0 then u32Max else idx - 1) else h.prevOf k := by
+      intro k
+      unfold Helper.prevOf; rw [ecap]; subst hh1
+      exact getD_set_ite _ _ _ _ _ hltP
+    obtain ⟨c1, c2, c3⟩ := ih wf1 e
+    rw [ecap] at c1
+    refine ⟨?_, ?_, c3.trans ehd⟩
+    · intro k hk
+      have := c1 k (fun m a b => hk m (by omega) (by omega))
+      rw [this.1, this.2, hN, hP, if_neg (hk idx (Nat.le_refl _) (by omega)),
+        if_neg (hk idx (Nat.le_refl _) (by omega))]
+      exact ⟨rfl, rfl⟩
+    · intro m lo hi
+      by_cases em : m = idx
+      · subst em
+        have := c1 m (fun m' a b em' => by
+          have := Helper.active_mod_inj wf (hact m' (by omega) (by omega))
+            (hact m (Nat.le_refl _) (by omega)) em'
+          omega)
+        rw [this.1, this.2, hN, hP, if_pos rfl, if_pos rfl]
+        exact ⟨rfl, rfl⟩
+      · exact c2 m (by omega) (by omega)
+
 end Daac
